@@ -27,6 +27,7 @@ RAISING = {"raise_memory", "raise_runtime", "raise_rankwarning", "broken_pipe", 
 
 class C06(OptEngineBase):
     PROPERTY = "C06"
+    SWEEP_MENU = {"solver": SOLVER_FAULTS, "stdout": STDOUT_FAULTS}
     TIERS = {
         "quick": {"runs": 2600, "budget_s": 75, "chunk": 16},
         "thorough": {"runs": 60000, "budget_s": 900, "chunk": 32},
